@@ -27,18 +27,26 @@ func zzRecord(n int) []byte {
 func zzBuilders(withNth bool, headerLines int, opts *Options, eventBox *util.EventBox) (ItemBuilder, *zzEnv_plainBuilder, *zzEnv_nthBuilder) {
 	plainAnsi := func(data []byte) (util.Chars, *[]ansiOffset) { return util.ToChars(data), nil }
 	opts.HeaderLines = headerLines
+	// free variables are set by name (see zzSet in the generated file): if the closure's environment
+	// changes shape the harness steps aside (and the check turns inconclusive) instead of not compiling
 	if !withNth {
-		env := &zzEnv_plainBuilder{header: make([]string, 0, headerLines), opts: opts, eventBox: eventBox, ansiProcessor: plainAnsi}
+		env := &zzEnv_plainBuilder{}
+		if !(env.zzSet("header", make([]string, 0, headerLines)) && env.zzSet("opts", opts) && env.zzSet("eventBox", eventBox) && env.zzSet("ansiProcessor", plainAnsi)) {
+			return nil, nil, nil
+		}
 		return zzLift_plainBuilder(env), env, nil
 	}
-	env := &zzEnv_nthBuilder{header: make([]string, 0, headerLines), opts: opts, eventBox: eventBox, ansiProcessor: plainAnsi,
-		nthTransformer: func(tokens []Token, index int32) string {
-			f := zzv.CfgInt("field")
-			if len(tokens) >= f {
-				return tokens[f-1].text.ToString()
-			}
-			return ""
-		}}
+	env := &zzEnv_nthBuilder{}
+	tr := func(tokens []Token, index int32) string {
+		f := zzv.CfgInt("field")
+		if len(tokens) >= f {
+			return tokens[f-1].text.ToString()
+		}
+		return ""
+	}
+	if !(env.zzSet("header", make([]string, 0, headerLines)) && env.zzSet("opts", opts) && env.zzSet("eventBox", eventBox) && env.zzSet("ansiProcessor", plainAnsi) && env.zzSet("nthTransformer", tr)) {
+		return nil, nil, nil
+	}
 	return zzLift_nthBuilder(env), nil, env
 }
 
@@ -52,10 +60,16 @@ func zzH_C07_stream() {
 	opts := &Options{Printer: func(s string) { printed = append(printed, s) }, Theme: &tui.ColorTheme{}}
 	eventBox := util.NewEventBox()
 	builder, _, _ := zzBuilders(withNth, 0, opts, eventBox)
+	if builder == nil {
+		return
+	}
 	cl := NewChunkList(NewChunkCache(), builder)
 	pattern := BuildPattern(NewChunkCache(), map[string]*Pattern{}, true, algo.FuzzyMatchV2, true, CaseSmart, true, true,
 		false, false, nil, Delimiter{}, revision{}, []rune("a"), nil)
-	env := &zzEnv_streamPusher{opts: opts, chunkList: cl, pattern: pattern}
+	env := &zzEnv_streamPusher{}
+	if !(env.zzSet("opts", opts) && env.zzSet("chunkList", cl) && env.zzSet("pattern", pattern)) {
+		return
+	}
 	push := zzLift_streamPusher(env)
 	nrec := zzv.Choose(1, zzv.CfgInt("records"))
 	var recs [][]byte
@@ -90,6 +104,9 @@ func zzH_C06_build() {
 	opts := &Options{Theme: &tui.ColorTheme{}}
 	eventBox := util.NewEventBox()
 	builder, penv, nenv := zzBuilders(withNth, hl, opts, eventBox)
+	if builder == nil {
+		return
+	}
 	nrec := zzv.Choose(0, zzv.CfgInt("records"))
 	accepted := 0
 	for i := 0; i < nrec; i++ {
